@@ -101,7 +101,7 @@ theorem map_snd_shiftIRec (k : Int) (kept : List IRec) : (kept.map (shiftIRec k)
 
 theorem applyKeep_shift (k : Int) (l : List Rec) (kept : List IRec) :
     applyKeep (l.map (shiftRec k)) (kept.map (shiftIRec k)) = (applyKeep l kept).map (shiftRec k) := by
-  simp only [applyKeep, flatMap_isoforms_shift, flatMap_genes_shift, zipIdx_shift, List.map_map]
+  simp only [applyKeep, flatMap_isoforms_shift, flatMap_genes_shift, zipIdx_shift, List.map_map, List.length_map]
   apply List.map_congr_left
   intro x _
   simp only [Function.comp_def, shiftIRec_fst, shiftIRec_snd, apply_ite (shiftRec k), flag_shift, suspend_shift]
